@@ -286,7 +286,40 @@ def multiline_case(case):
     return dict(key=case, nontrivial=True, failures=fails, sample=dict(lines=order))
 
 
+def nested_multiline_case(case):
+    """a group defined over several lines and referred to by another group whose line arrives before, between or after them: the referrer
+    resolves through the COMPLETE group (reference: the same document with the group written on one line, read last)"""
+    _, rt, parts, pos, rrt = case
+    lines = BASE + [eline(e) for e in ("e1", "e2", "e3")]
+    glines = ["%s\tgg\t%s" % (rt, p) for p in parts]
+    ref = ("O\trr\tgg+" if rt == "O" else "O\trr\tA+") if rrt == "O" else "U\trr\tgg"
+    if rrt == "O" and rt == "U":
+        return dict(key=case, nontrivial=False, failures=[])
+    seq = glines[:pos] + [ref] + glines[pos:]
+    one = lines + ["%s\tgg\t%s" % (rt, " ".join(parts)), ref]
+    fails = []
+    def obs(doc):
+        g = gfapy.Gfa(doc, vlevel=1)
+        r = g.line("rr")
+        if rrt == "O":
+            return [str(x) for x in r.captured_path]
+        return (sorted(x.name for x in r.induced_segments_set), sorted(x.name for x in r.induced_edges_set))
+    try:
+        want = obs(one)
+        got = obs(lines + seq)
+        if got != want:
+            fails.append(dict(signature="C17:referrer-of-multi-line-group-sees-part-of-it:%s-in-%s" % (rt, rrt), what="arrival %s: %s instead of %s" % (seq, got, want), case=dict(lines=lines + seq),
+                              reproducer="import gfapy\ng = gfapy.Gfa(%r)\nr = g.line('rr'); print([str(x) for x in r.captured_path] if %r == 'O' else [x.name for x in r.induced_set])" % (lines + seq, rrt)))
+    except gfapy.Error as e:
+        fails.append(dict(signature="C17:referrer-of-multi-line-group-raises-%s:%s-in-%s" % (type(e).__name__, rt, rrt), what="%s: %s" % (seq, harness.short(e, 150)), case=dict(lines=lines + seq)))
+    except Exception as e:
+        fails.append(dict(signature="C17:referrer-of-multi-line-group-foreign-%s" % type(e).__name__, what=str(seq), case=dict(lines=lines + seq)))
+    return dict(key=case, nontrivial=True, failures=fails, sample=dict(lines=seq))
+
+
 def check_any(case):
+    if case[0] == "N":
+        return nested_multiline_case(case)
     if case[0] in ("O", "U"):
         return multiline_case(case)
     return check(case)
@@ -352,6 +385,10 @@ def cases(tier, seed):
                         continue
                     outer = ([pre] if pre else []) + ["o0" + o] + ([post] if post else [])
                     out.append((sys_edges, {"o0": list(inner), "o1": outer}, {}, k))
+    for rt, parts in (("O", ["A+ B+", "C+", "D+"]), ("O", ["A+", "B+ C+"]), ("U", ["A B", "C", "e1 D"]), ("U", ["A", "B"])):
+        for pos in range(len(parts) + 1):
+            for rrt in ("O", "U"):
+                out.append(("N", rt, parts, pos, rrt))
     for rt, parts in (("U", ["A B", "C", "e1 D"]), ("O", ["A+ B+", "C+", "D+"]), ("U", ["A", "B"]), ("O", ["A+", "B+ C+"])):
         for perm in itertools.permutations(range(len(parts))):
             if rt == "O" and list(perm) != sorted(perm):
